@@ -281,7 +281,9 @@ def call_strategy():
             {"op": "emergency_halt", "text": "stop now", "reset": True},
             {"op": "emergency_halt", "text": "stop", "reset": False},
         ]))
-    return st.one_of(*[motion(op) for op in MOTION], scalar, scalar, plain)
+    reconf = st.integers(0, 12).map(lambda n: {"op": "reconfig", "dp": n})
+    return st.one_of(*[motion(op) for op in MOTION], scalar, scalar, plain, reconf,
+                     st.just({"op": "repeat"}), st.just({"op": "repeat"}))
 
 
 def case_strategy():
@@ -364,7 +366,21 @@ def check_builder_case(case, ctx=None):
         classes.add("relabelled")
     classes.add("style:" + cfg["comment"])
     classes.add("eol:" + cfg["eol"])
+    last_call = None
     for call in case["calls"]:
+        if call["op"] == "reconfig":
+            # the configuration may change in the middle of a program
+            dp = call["dp"]
+            s.g.format.set_decimal_places(dp)
+            s.dp = dp
+            classes.add("decimal_places_changed_mid_program")
+            continue
+        if call["op"] == "repeat":
+            if last_call is None:
+                continue
+            call = last_call
+            classes.add("same_values_emitted_again")
+        last_call = call
         desc, exp, nlines, values = _build(call, dp, cfg["labels"])
         for d, v in zip(_descs(call), values):
             classes.update(value_classes(d, v, dp))
@@ -398,6 +414,7 @@ def check_builder_case(case, ctx=None):
             # start over with a fresh builder for the remaining calls
             s = Session(dp=dp, eol=cfg["eol"], comment=cfg["comment"],
                         labels=cfg["labels"], strict=True)
+            last_call = None
             continue
         if raised is not None:
             from gscrib.excepts import ToolStateError, CoolantStateError
